@@ -157,6 +157,7 @@ func Main() {
 	ctx := &Ctx{Prop: prop, Tier: *tier, Seed: *seed, Rng: rand.New(rand.NewSource(*seed)), Out: *out,
 		Groups: map[string]*Group{}, Hist: map[string]int{}, Extra: map[string]any{}}
 	f(ctx)
+	ctx.filterReplay()
 	if err := ctx.write(); err != nil {
 		fmt.Fprintln(os.Stderr, "write:", err)
 		os.Exit(2)
@@ -193,6 +194,60 @@ func internStrings(terms []string) (string, []string) {
 		})
 	}
 	return defs.String(), out
+}
+
+// filterReplay: with VERIF_REPLAY=<replay file> only the cases whose structured key equals the
+// replayed case's key are kept (the generators are deterministic in the seed, so the failing case
+// is regenerated); if no case has that key the run is left as it is.
+func (c *Ctx) filterReplay() {
+	path := os.Getenv("VERIF_REPLAY")
+	if path == "" {
+		return
+	}
+	b, err := os.ReadFile(path)
+	if err != nil {
+		return
+	}
+	var rp struct {
+		Case struct {
+			Key map[string]string `json:"key"`
+		} `json:"case"`
+	}
+	if json.Unmarshal(b, &rp) != nil || len(rp.Case.Key) == 0 {
+		return
+	}
+	same := func(k map[string]string) bool {
+		if len(k) != len(rp.Case.Key) {
+			return false
+		}
+		for a, v := range rp.Case.Key {
+			if k[a] != v {
+				return false
+			}
+		}
+		return true
+	}
+	found := false
+	for _, g := range c.Groups {
+		for _, cs := range g.Cases {
+			if same(cs.Key) {
+				found = true
+			}
+		}
+	}
+	if !found {
+		return
+	}
+	for _, g := range c.Groups {
+		var keep []*Case
+		for _, cs := range g.Cases {
+			if same(cs.Key) {
+				keep = append(keep, cs)
+			}
+		}
+		g.Cases = keep
+	}
+	c.Extra["replay_of"] = path
 }
 
 func (c *Ctx) write() error {
